@@ -263,7 +263,11 @@ def check_element(m, make_elem, rng, tier):
         # QUAD-POINTS: at the global quadrature points of every cell the interpolator agrees with basis.interpolate(y)
         xq = basis.mapping.F(basis.X)                                   # (d, ncells, nqp)
         want = np.asarray(basis.interpolate(y).value)
-        for xx in [xq.reshape(xq.shape[0], -1)] + ([xq] if cshape == () else []):
+        # the arrangement of the query points in memory is irrelevant: C-contiguous, Fortran-contiguous and strided views of the same (d, ncells, nqp) array
+        layouts = [xq.reshape(xq.shape[0], -1)]
+        if cshape == ():
+            layouts += [xq, np.asfortranarray(xq), np.ascontiguousarray(xq.transpose(0, 2, 1)).transpose(0, 2, 1), np.repeat(xq, 2, axis=2)[:, :, ::2]]
+        for xx in layouts:
             got = np.asarray(basis.interpolator(y)(xx))
             if got.size != want.size or not close(got.reshape(want.shape), want):
                 fails.append("[QUAD-POINTS] interpolator(y)(x of shape %s) differs from basis.interpolate(y): shape %s, max diff %s"
